@@ -55,7 +55,8 @@ R = 'nfc.clf.rcs380:'
 contract(R + 'Chipset.send_command', 'C13', dict(self=Any(), cmd_code=Any(), cmd_data=Any()),
          name='C13/rcs380.send_command', assumed=True,
          note='returns the response payload, or None when the host frames are not as expected; the transport may '
-              'raise IOError; a well-framed response carries the payload length its command defines (at least 8 octets here)', raises={'IOError': []}, returns=Opt(Bytes(8, 300, mutable=True)))
+              'raise IOError (both proved on the real function as C13/rcs380.send_command.real); ASSUMED chip behaviour: a '
+              'complete frame with the matching response code carries the payload its command defines (at least 8 octets here)', raises={'IOError': []}, returns=Opt(Bytes(8, 300, mutable=True)))
 RDEV = lambda: Obj(R + 'Device', chipset=Obj(R + 'Chipset', transport=Const(1)), log=Log())   # noqa
 RUSE = ['C13/rcs380.send_command', 'C13/check_crc_a']
 contract(R + 'Device.send_cmd_recv_rsp', 'C13',
@@ -101,3 +102,76 @@ contract(X + 'Chipset.in_data_exchange', 'C13',
          ensures=[('O-status.ok', 'call_ret("C13/pn53x.command.answered")[0] % 64 == 0')],
          raises={'IOError': [], CE: ['exc.errno == call_ret("C13/pn53x.command.answered")[0] % 64',
                                      'exc.errno != 0']})
+
+# ---------------------------------------------------------------- RC-S380 host frames (verified, not assumed)
+# the real send_command over a host link that may deliver anything (truncated reads included) or fail: only
+# IOError leaves it, whatever the octets read - the response payload, when one is returned, comes from a frame
+# that carries the response code D7h, cmd_code + 1
+RTR = lambda: Obj('models.hostlink:UsbTransport', written=Fixed([]), last=None)   # noqa
+contract(R + 'Chipset.send_command', 'C13',
+         dict(self=Obj(R + 'Chipset', transport=RTR()), cmd_code=OneOf(Const(0x00), Const(0x02), Const(0x04),
+                                                                      Const(0x06), Const(0x40), Const(0x42),
+                                                                      Const(0x48)),
+              cmd_data=Bytes(0, 300, mutable=True)),
+         name='C13/rcs380.send_command.real', raises={'IOError': []},
+         ensures=[('O-rsp.code', 'result is None or (len(self.transport.last) >= 10 and '
+                                 'self.transport.last[8] == 0xD7 and self.transport.last[9] == cmd_code + 1)')])
+
+# ---------------------------------------------------------------- other PN53x family drivers
+# PN533 and RC-S956 override the Type 1 Tag command path; the firmware-supported commands and the PN533 RSEG
+# emulation (16 READ8 exchanges) are under contract, the register-level bit banging of READ8/WRITE8 is out of
+# reach like the PN532 one (string based bit reversal)
+contract(X + 'Chipset.in_data_exchange', 'C13', dict(self=Any(), data=Any(), timeout=Any(), more=Any()),
+         name='C13/pn53x.in_data_exchange.summary', assumed=True,
+         note='summary of C13/pn53x.in_data_exchange (proved above): response data and the more flag, IOError or '
+              'Chipset.Error with a non-zero 6-bit error code',
+         raises={'IOError': [], CE: ['exc.errno >= 1 and exc.errno <= 63']},
+         returns='(nondet_bytearray(0, 262), nondet_bool())')
+for mod, what in (('nfc.clf.rcs956:', 'rcs956'), ('nfc.clf.pn533:', 'pn533')):
+    contract(mod + 'Device._tt1_send_cmd_recv_rsp', 'C13',
+             dict(self=Obj(mod + 'Device', chipset=Obj(mod + 'Chipset', transport=None, log=Log()), log=Log()),
+                  data=Bytes(1, 16, mutable=True), timeout=Const(0.1)),
+             name='C13/%s._tt1_send_cmd_recv_rsp' % what,
+             requires=['data[0] in (0x00, 0x01, 0x1A, 0x53, 0x72)'] if what == 'pn533' else [],
+             raises={'IOError': [], CE: [], 'nfc.clf:TransmissionError': []},
+             use=['C13/pn53x.in_data_exchange.summary'])
+
+# the exchange paths of the other family members: the same two functions run on the subclass (what differs is
+# what the subclass overrides - _tt1_send_cmd_recv_rsp, register names, the command table); RC-S956 runs its real
+# Type 1 Tag path, the others keep the assumed one
+for mod, what, tt1 in (('nfc.clf.pn531:', 'pn531', 'nfc.clf.pn53x:'), ('nfc.clf.pn533:', 'pn533', 'nfc.clf.pn533:'),
+                       ('nfc.clf.rcs956:', 'rcs956', None), ('nfc.clf.acr122:', 'acr122', 'nfc.clf.pn532:')):
+    use = ['C13/check_crc_a']
+    if what == 'acr122':
+        contract(mod + 'Chipset.command', 'C13', dict(self=Any(), cmd_code=Any(), cmd_data=Any(), timeout=Any()),
+                 name='C13/acr122.command', assumed=True, note='raises-clause proved as C14/acr122.command',
+                 raises={'IOError': [], CE: ['exc.errno >= 1 and exc.errno <= 255']},
+                 returns=Bytes(1, 264, mutable=True))
+        use += ['C13/acr122.command', 'C13/pn532._read_register']
+    else:
+        contract(mod + 'Chipset._read_register', 'C13', dict(self=Any(), data=Any()),
+                 name='C13/%s._read_register' % what, assumed=True,
+                 note='chip behaviour: a valid ReadRegister response holds one octet per requested register',
+                 raises={'IOError': [], CE: ['exc.errno >= 1 and exc.errno <= 255']},
+                 returns='nondet_bytearray(len(data) // 2, len(data) // 2)')
+        use += ['C13/pn53x.command', 'C13/%s._read_register' % what]
+    if tt1 is not None:
+        contract(tt1 + 'Device._tt1_send_cmd_recv_rsp', 'C13', dict(self=Any(), data=Any(), timeout=Any()),
+                 name='C13/%s._tt1.assumed' % what, assumed=True,
+                 note='register-level Type 1 Tag command emulation out of reach (string based bit reversal); assumed '
+                      'to raise only what Chipset.command raises (pn531: NotImplementedError is what the base '
+                      'class raises - see C13/pn531.tt1 below)',
+                 raises={'IOError': [], CE: ['exc.errno >= 1 and exc.errno <= 255']},
+                 returns=Bytes(0, 264, mutable=True))
+        use.append('C13/%s._tt1.assumed' % what)
+    else:
+        use.append('C13/pn53x.in_data_exchange.summary')
+    dev = lambda mod=mod: Obj(mod + 'Device', chipset=Obj(mod + 'Chipset', transport=None, log=Log()), log=Log())  # noqa
+    contract('nfc.clf.pn53x:Device.send_cmd_recv_rsp', 'C13',
+             dict(self=dev(), target=RTGT(), data=Bytes(0, 262, mutable=True), timeout=Const(0.1)),
+             name='C13/%s.send_cmd_recv_rsp' % what, raises=DOC, use=use,
+             # a Type 1 Tag command has at least its command code (the real RC-S956 path reads data[0])
+             requires=['target.rid_res is None or len(data) >= 1'])
+    contract('nfc.clf.pn53x:Device.send_rsp_recv_cmd', 'C13',
+             dict(self=dev(), target=LTGT(), data=Opt(Bytes(0, 262, mutable=True)), timeout=Const(0.1)),
+             name='C13/%s.send_rsp_recv_cmd' % what, raises=DOC, use=use)
